@@ -2,38 +2,40 @@
    Only statements; proofs by reference (proofs/MigrateProofs.v generic, proofs/MigrateConcrete.v over the
    script lists regenerated from ctrl/qryn/sql/*.sql). *)
 From Coq Require Import List String NArith ZArith Bool Arith.
-From Qryn Require Import model.Migrate proofs.MigrateProofs gen.GenScripts proofs.MigrateConcrete.
+From Qryn Require Import model.Migrate proofs.MigrateProofs proofs.MigrateClusterProofs gen.GenScripts proofs.MigrateConcrete.
 Import ListNotations.
 Open Scope nat_scope.
 
-(* For ANY statement semantics and ANY script lists, any configuration, any number of process starts with
-   any placement of failures (before / after the effect of any database call): the monitor accepts the whole
+(* For ANY statement semantics (also of statements that complete on some hosts only: pexec) and ANY script
+   lists, any configuration, any number of process starts with any placement of failures (before / after the
+   effect of any database call, or a statement completing on some hosts only): the monitor accepts the whole
    call log -- a script only ever takes effect when all its predecessors of the stream did (file order, no
    gaps) and when its own version is not recorded yet (what is recorded is never run again); a version v is
    only recorded when scripts 0..v-1 were applied -- and in the resulting database the version of every
    stream is at least what the log recorded and at most the number of scripts applied. *)
 Theorem version_never_ahead :
-  forall (cat stmt : Type) (exec : stmt -> cat -> option cat) (scripts : stream -> list stmt)
-         (c : cfg) (runs : list (list outcome)) (c0 : cat),
-  exists m, mon_run mst0 (snd (multi_run cat stmt exec scripts c runs (db0 cat c0))) = Some m /\
-            forall k, m_rec m k <= d_vers (fst (multi_run cat stmt exec scripts c runs (db0 cat c0))) k /\
-                      d_vers (fst (multi_run cat stmt exec scripts c runs (db0 cat c0))) k <= m_app m k.
+  forall (cat stmt : Type) (exec : stmt -> cat -> option cat) (pexec : list bool -> stmt -> cat -> cat)
+         (scripts : stream -> list stmt) (c : cfg) (runs : list (list outcome)) (c0 : cat),
+  exists m, mon_run mst0 (snd (multi_run cat stmt exec pexec scripts c runs (db0 cat c0))) = Some m /\
+            forall k, m_rec m k <= d_vers (fst (multi_run cat stmt exec pexec scripts c runs (db0 cat c0))) k /\
+                      d_vers (fst (multi_run cat stmt exec pexec scripts c runs (db0 cat c0))) k <= m_app m k.
 Proof. exact never_ahead. Qed.
 Print Assumptions version_never_ahead.
 
 (* On a database whose recorded versions are current, Update (with or without failures) issues no script
    statement and no version write, leaves catalogue and versions alone, and succeeds if nothing fails. *)
 Theorem noop_when_current :
-  forall (cat stmt : Type) (exec : stmt -> cat -> option cat) (scripts : stream -> list stmt)
-         (c : cfg) (os : list outcome) (d : db cat),
+  forall (cat stmt : Type) (exec : stmt -> cat -> option cat) (pexec : list bool -> stmt -> cat -> cat)
+         (scripts : stream -> list stmt) (c : cfg) (os : list outcome) (d : db cat),
   (forall k, In k (streams_of c) -> List.length (scripts k) <= d_vers d k) ->
-  let r := update cat stmt exec scripts c os d in
+  let r := update cat stmt exec pexec scripts c os d in
   d_cat (r_db r) = d_cat d /\ d_vers (r_db r) = d_vers d /\ filter is_script_event (r_log r) = [] /\
   (os = [] -> r_ok r = true /\ r_os r = []).
-Proof. intros cat stmt exec scripts c. exact (run_streams_noop cat stmt exec scripts c (streams_of c)). Qed.
+Proof. intros cat stmt exec pexec scripts c. exact (run_streams_noop cat stmt exec pexec scripts c (streams_of c)). Qed.
 Print Assumptions noop_when_current.
 
-(* General convergence lemma: if along the uninterrupted run every statement succeeds and is re-executable
+(* General convergence lemma, one server (a statement takes effect or it does not: pexec_one): if along the
+   uninterrupted run every statement succeeds and is re-executable
    right after itself (reexec_streams, a computation), then after any number of interrupted runs one run
    without failures returns nil, ends in the catalogue of the uninterrupted migration, with every stream's
    version at its script count. *)
@@ -42,8 +44,8 @@ Theorem rerun_converges :
          (cat_eqb : cat -> cat -> bool), (forall a b, cat_eqb a b = true -> a = b) ->
   forall (c : cfg) (c0 : cat) (runs : list (list outcome)),
   reexec_streams cat stmt exec scripts cat_eqb (streams_of c) c0 = true ->
-  let d := fst (multi_run cat stmt exec scripts c runs (db0 cat c0)) in
-  let r := update cat stmt exec scripts c [] d in
+  let d := fst (multi_run cat stmt exec pexec_one scripts c runs (db0 cat c0)) in
+  let r := update cat stmt exec pexec_one scripts c [] d in
   r_ok r = true /\ apply_streams cat stmt exec scripts (streams_of c) c0 = Some (d_cat (r_db r)) /\
   forall k, In k (streams_of c) -> d_vers (r_db r) k = List.length (scripts k).
 Proof. exact converges. Qed.
@@ -56,18 +58,57 @@ Theorem scripts_reexecutable : forall c : cfg,
 Proof. exact gen_reexec. Qed.
 Print Assumptions scripts_reexecutable.
 
-(* Hence, for the repository's scripts under the modelled ClickHouse semantics: whatever failures and
-   restarts happened before, the next undisturbed start completes, reaches exactly the schema of a migration
-   that was never interrupted, records every stream's version, and a further start runs no script. *)
-Theorem rerun_converges_scripts : forall (c : cfg) (runs : list (list outcome)),
-  let d := fst (ch_multi c runs (db0 cat cat0)) in
-  let r := ch_update gen_scripts c [] d in
+(* General convergence lemma, cluster of 1 + n hosts (any n), generic in the per-host statement semantics:
+   hosts run a statement independently; an ON CLUSTER statement may complete on any subset of the hosts while
+   the caller sees an error (OPartial skip, for every skip), a host may reject what another accepts, a
+   statement without ON CLUSTER reaches the connected host only.  If, per host, along the uninterrupted run
+   every statement that host receives is accepted and re-executable right after itself (cl_reexec_streams, a
+   computation over two catalogues, independent of n), then after any number of interrupted starts one
+   undisturbed start returns nil, the connected host ends where its uninterrupted run ends, every other host
+   where the ON CLUSTER statements alone lead, and every stream's version is at its script count. *)
+Theorem rerun_converges_cluster :
+  forall (hcat hstmt : Type) (hexec : hstmt -> hcat -> option hcat) (hcat_eqb : hcat -> hcat -> bool),
+  (forall a b, hcat_eqb a b = true -> a = b) ->
+  forall (cscripts : stream -> list (cstmt hstmt)) (c : cfg) (h0 ho : hcat) (n : nat) (runs : list (list outcome)),
+  cl_reexec_streams hcat hstmt hexec hcat_eqb cscripts (streams_of c) h0 ho = true ->
+  let d := fst (multi_run (ccat hcat) (cstmt hstmt) (cl_exec hcat hstmt hexec) (cl_pexec hcat hstmt hexec) cscripts c runs
+                  (db0 (ccat hcat) (h0 :: repeat ho n))) in
+  let r := update (ccat hcat) (cstmt hstmt) (cl_exec hcat hstmt hexec) (cl_pexec hcat hstmt hexec) cscripts c [] d in
   r_ok r = true /\
-  d_cat (r_db r) = d_cat (expected_final gen_scripts c) /\
+  (exists a b, cl_track_streams hcat hstmt hexec cscripts (streams_of c) h0 ho = Some (a, b) /\
+               d_cat (r_db r) = a :: repeat b n) /\
+  forall k, In k (streams_of c) -> d_vers (r_db r) k = List.length (cscripts k).
+Proof. exact cl_converges. Qed.
+Print Assumptions rerun_converges_cluster.
+
+(* Its premise holds for the repository's scripts with their {{.OnCluster}} flags, in all eight
+   configurations (hypothesis met by a non-trivial value: 75 statements, 63 of them ON CLUSTER). *)
+Theorem scripts_reexecutable_cluster : forall c : cfg,
+  cl_reexec_streams cat stmt (exec_ch (cloud c)) cat_eqb (cl_scripts gen_scripts gen_oncluster c) (streams_of c) cat0 cat0 = true.
+Proof. exact gen_cl_reexec. Qed.
+Print Assumptions scripts_reexecutable_cluster.
+
+(* Hence, for the repository's scripts under the modelled ClickHouse semantics, on a cluster of 1 + n hosts
+   (n = 0: one server): whatever failures, partially completed ON CLUSTER statements and restarts happened
+   before, the next undisturbed start completes, every host reaches exactly the schema it has after a
+   migration that was never interrupted, every stream's version is recorded, and a further start runs no
+   script. *)
+Theorem rerun_converges_scripts : forall (c : cfg) (n : nat) (runs : list (list outcome)),
+  let d := fst (cl_multi c runs (db0 (ccat cat) (hosts0 (S n)))) in
+  let r := ch_update gen_scripts gen_oncluster c [] d in
+  r_ok r = true /\
+  d_cat (r_db r) = d_cat (expected_final gen_scripts gen_oncluster c (S n)) /\
   (forall k, In k (streams_of c) -> d_vers (r_db r) k = List.length (gen_scripts k)) /\
-  (forall os, filter is_script_event (r_log (ch_update gen_scripts c os (r_db r))) = []).
+  (forall os, filter is_script_event (r_log (ch_update gen_scripts gen_oncluster c os (r_db r))) = []).
 Proof. exact gen_converges. Qed.
 Print Assumptions rerun_converges_scripts.
+
+(* The connected host ends exactly where the one-server model ends; the other hosts of a cluster do not end
+   in the same schema as the connected one (statements without {{.OnCluster}} -- the type_v2 ALIAS columns,
+   the settings rows -- reach the connected host only).  Uninterrupted and interrupted runs agree on this. *)
+Theorem cluster_hosts_final : forall c : cfg, hosts_final_ok c = true.
+Proof. exact gen_hosts_final. Qed.
+Print Assumptions cluster_hosts_final.
 
 (* No script touches the version tables (the protocol model keeps them outside the scripts' catalogue). *)
 Theorem scripts_leave_ver_alone :
@@ -79,8 +120,8 @@ Print Assumptions scripts_leave_ver_alone.
    (scripts identified by the id of their classified content, stream = the one whose version was read
    last) never rejects a log the model can produce, whatever the failures: a rejected observation is a
    property violation or a model/implementation difference, not an artefact of the oracle. *)
-Theorem oracle_accepts_model_logs_scripts : forall (c : cfg) (runs : list (list outcome)),
-  omon_ok gen_sids (map (abs_event gen_sids) (snd (ch_multi c runs (db0 cat cat0)))) = true.
+Theorem oracle_accepts_model_logs_scripts : forall (c : cfg) (hs : ccat cat) (runs : list (list outcome)),
+  omon_ok gen_sids (map (abs_event gen_sids) (snd (cl_multi c runs (db0 (ccat cat) hs)))) = true.
 Proof. exact gen_oracle_accepts. Qed.
 Print Assumptions oracle_accepts_model_logs_scripts.
 
@@ -88,6 +129,15 @@ Print Assumptions oracle_accepts_model_logs_scripts.
    earlier (the shape log.sql had before the fix) passes an undisturbed run, but after one failure between
    the RENAME and its version row every later start fails at the RENAME and the version stays behind. *)
 Theorem reexecutability_needed : old_shape_stuck = true /\
-  r_ok (update cat stmt (exec_ch false) old_shape cfg_single [] (db0 cat cat0)) = true.
+  r_ok (update cat stmt (exec_ch false) pexec_one old_shape cfg_single [] (db0 cat cat0)) = true.
 Proof. exact (conj old_shape_does_not_converge old_shape_clean_run_ok). Qed.
 Print Assumptions reexecutability_needed.
+
+(* The same on a cluster: the unguarded RENAME sent ON CLUSTER to two hosts and completed on the connected one
+   only leaves every later start failing; and the monitor rejects a version recorded after a statement that
+   completed on some hosts only, while it accepts it once the statement was re-executed to completion. *)
+Theorem partial_application_matters : old_shape_cl_stuck = true /\
+  mon_ok [EScript SLog 0 (RFPartial); EInsVer SLog 1 ROk] = false /\
+  mon_ok [EScript SLog 0 (RFPartial); EScript SLog 0 ROk; EInsVer SLog 1 ROk] = true.
+Proof. exact (conj old_shape_cl_does_not_converge partial_then_recorded_rejected). Qed.
+Print Assumptions partial_application_matters.
